@@ -484,4 +484,32 @@ B('K-series-init-no-size-check', ['C03'], 'series.py', 'Series.__init__',
 N('K-copy-list-spelling', ['C03'], 'type_blocks.py', 'TypeBlocks.__copy__',
   'blocks=[b for b in self._blocks],', 'blocks=list(self._blocks),')
 
+# ---------------------------------------------------------------------------------- concat (C11)
+B('CC-no-align', ['C11'], 'frame.py', 'Frame.from_concat',
+  "                    if len(frame.index) != len(index) or (frame.index != index).any():\n                        frame = frame.reindex(index=index, fill_value=fill_value)\n", "", 'E.concat-sequence', 'blocks')
+B('CC-align-length-only', ['C11'], 'frame.py', 'Frame.from_concat',
+  "if len(frame.columns) != len(columns) or (frame.columns != columns).any():", "if len(frame.columns) != len(columns):", 'E.concat-sequence', 'blocks')
+B('CC-fill-value-dropped', ['C11'], 'frame.py', 'Frame.from_concat',
+  "frame = frame.reindex(columns=columns, fill_value=fill_value)", "frame = frame.reindex(columns=columns)", 'E.concat-sequence', 'blocks')
+B('CC-dup-swallowed', ['C11'], 'frame.py', 'Frame.from_concat',
+  "                except ErrorInitIndexNonUnique:\n                    raise ErrorInitFrame('Index names after vertical concatenation are not unique; supply an index argument or IndexAutoFactory.')\n                own_index = True",
+  "                except ErrorInitIndexNonUnique:\n                    index = None\n                own_index = True", 'E.concat-sequence', 'from_concat')
+B('CC-frames-sorted', ['C11'], 'frame.py', 'Frame.from_concat',
+  "        own_columns = False\n        own_index = False\n\n        if not frames:", "        own_columns = False\n        own_index = False\n        frames.sort(key=len)\n\n        if not frames:", 'E.concat-sequence', 'from_concat')
+B('CC-labels-filtered', ['C11'], 'frame.py', 'Frame.from_concat',
+  "index = index_many_concat((f._index for f in frames), Index)", "index = index_many_concat((f._index for f in frames if len(f._index)), Index)", 'E.concat-sequence', 'from_concat')
+B('CC-axis-asymmetry', ['C11'], 'frame.py', 'Frame.from_concat',
+  "                columns = index_many_set(\n                        (f._columns for f in frames),\n                        cls._COLUMNS_CONSTRUCTOR,\n                        union=union,\n                        )",
+  "                columns = index_many_set(\n                        (f._columns for f in frames),\n                        cls._COLUMNS_CONSTRUCTOR,\n                        union=True,\n                        )", 'E.concat-sequence', 'from_concat')
+B('CC-items-second-pass', ['C11'], 'series.py', 'Series.from_concat_items',
+  "                array_values.append(series.values)\n                yield label, series._index", "                yield label, series._index\n        array_values.extend(s.values for _, s in sorted(items, key=lambda p: str(p[0])))\n        if False:\n                yield None", 'E.concat-items', 'Series.from_concat_items')
+B('CC-vstack-raw-concat', ['C11', 'C07'], 'type_blocks.py', 'TypeBlocks.vstack_blocks_to_blocks',
+  "                yield concat_resolved(block_parts) # returns immutable array", "                yield np.concatenate(block_parts)", ('E.concat-items', 'F2'), 'vstack_blocks_to_blocks')
+B('CC-overlay-assign', ['C11'], 'series.py', 'Series.from_overlay',
+  "            post = post.fillna(container)", "            post = post.assign[container.index.intersection(post.index)](container)", 'I.overlay', 'Series.from_overlay')
+B('CC-overlay-reversed', ['C11'], 'frame.py', 'Frame.from_overlay',
+  "        containers_iter = iter(containers)", "        containers_iter = iter(reversed(containers))", 'I.overlay', 'Frame.from_overlay')
+N('CC-mirror-comment', ['C11'], 'frame.py', 'Frame.from_concat',
+  "                columns = None # let default creation happen", "                columns = None # default creation")
+
 VARIANTS = V
